@@ -1,5 +1,6 @@
 import XixiKV.Proofs.Crc
 import XixiKV.Proofs.Truncate
+import XixiKV.Proofs.TruncateBoundary
 /-!
 # C12 — damaged bytes are detected or harmless (partial by design)
 
@@ -13,8 +14,11 @@ Proved here, for the concrete CRC-32 chunk codec of the model:
 * `C12_truncation`    — for the reader of the ACTIVE file (`tolerateTornTail`), any truncation
                          reads as a clean prefix (shared with C03);
 * `C12_torn_tail_only_active` — every other reader (older files, merge, hint file) is strict: a
-                         file that ends inside a chunk is reported as corruption, not as a
-                         shorter log.
+                         file that ends inside the chunk bytes of a record — inside a chunk or at
+                         the block boundary between two chunks of one record — is reported as
+                         corruption, not as a shorter log;
+* `C12_torn_tail_active`      — the tolerant reader on exactly the same cut: the same records and
+                         the same `validEnd`, and a clean end of file.
 NOT provable and not claimed: detection of arbitrary multi-byte garbage and of flips in the length
 field (probabilistic); the "never panics" half of the property is a statement about Go slice bounds,
 which the model cannot violate by construction — it is checked by the exhaustive corruption runs
@@ -68,16 +72,19 @@ theorem C12_truncation (fid : Nat) (ds : List ByteArray) (hpos : ∀ d ∈ ds, 0
   obtain ⟨j, hj, _, _, h⟩ := scan_truncate crcCodec fid ds hpos n hn
   exact ⟨j, hj, h⟩
 
-/-- A torn tail is accepted only by the reader of the active file; in every other file an
-    incomplete chunk is reported as corruption.
+/-- A torn tail is accepted only by the reader of the active file; in every other file a log that
+    ends inside a record is reported as corruption.
 
-    Cut a file built by appends at a length `n` inside the chunk bytes of record `j`: behind the
-    padding in front of the record (`hlo`), before its end (`hhi`), not at a block boundary (`hnb`;
-    a cut at a block boundary between two chunks of one record leaves no incomplete chunk — the
-    next block simply does not exist — and reads as end of file for both readers), and such that
-    the bytes present of the incomplete chunk are not all zero (`hnz`; the chunk starts at the
-    record's first chunk or at the start of the file's last block, whichever is later; an all-zero
-    remainder is indistinguishable from never-written space and is end of file for every reader).
+    Cut a file built by appends at a length `n` strictly inside the chunk bytes of record `j`:
+    behind the padding in front of the record (`hlo`) and before its end (`hhi`).
+    * If the cut is NOT at a block boundary, an incomplete chunk is left (it starts at the record's
+      first chunk or at the start of the file's last block, whichever is later), and the bytes
+      present of it must not all be zero (`hnz`; an all-zero remainder is indistinguishable from
+      never-written space and is end of file for every reader).
+    * If the cut IS at a block boundary (`n % BS = 0`: at least one whole chunk of the record lies
+      in front of the cut, the next block does not exist, no incomplete chunk is left) nothing
+      further is required: `DataReader.next` has consumed `cnt > 0` chunks of the record when the
+      log ends and reports `ErrInvalidCRC` (`endOfLog`).
     Then the strict reader (`tol = false`) returns the `j` records in front of the cut, with the
     positions the writer reported, and ends with an ERROR — it does not silently drop the tail. -/
 theorem C12_torn_tail_only_active (fid : Nat) (ds : List ByteArray) (hpos : ∀ d ∈ ds, 0 < d.size)
@@ -85,14 +92,26 @@ theorem C12_torn_tail_only_active (fid : Nat) (ds : List ByteArray) (hpos : ∀ 
     (hlo : (appendAll crcCodec ByteArray.empty (ds.take j)).size
       + padOf ((appendAll crcCodec ByteArray.empty (ds.take j)).size % BS) < n)
     (hhi : n < (appendAll crcCodec ByteArray.empty (ds.take (j+1))).size)
-    (hnb : n % BS ≠ 0)
-    (hnz : allZeroFrom ((appendAll crcCodec ByteArray.empty ds).extract 0 n)
+    (hnz : n % BS ≠ 0 → allZeroFrom ((appendAll crcCodec ByteArray.empty ds).extract 0 n)
       (max ((appendAll crcCodec ByteArray.empty (ds.take j)).size
           + padOf ((appendAll crcCodec ByteArray.empty (ds.take j)).size % BS)) (n / BS * BS)) = false) :
     scan crcCodec false fid ((appendAll crcCodec ByteArray.empty ds).extract 0 n)
       = { recs := (ds.take j).zip (posAll crcCodec fid ByteArray.empty (ds.take j)),
           validEnd := (appendAll crcCodec ByteArray.empty (ds.take j)).size, ok := false } :=
-  scan_truncate_strict crcCodec fid ds hpos j n hj hlo hhi hnb hnz
+  scan_truncate_strict' crcCodec fid ds hpos j n hj hlo hhi hnz
+
+/-- The tolerant reader (`tol = true`: the active file's) on the same cut — in fact on every cut at
+    or behind the end of record `j-1` (`hfit`) and before the end of record `j` (`hhi`), block
+    boundary or not, zero remainder or not: the same `j` records with the writer's positions, the
+    same `validEnd`, and a clean END OF FILE.  (`C12_truncation` with its `j` made explicit.) -/
+theorem C12_torn_tail_active (fid : Nat) (ds : List ByteArray) (hpos : ∀ d ∈ ds, 0 < d.size)
+    (j n : Nat) (hj : j < ds.length)
+    (hfit : (appendAll crcCodec ByteArray.empty (ds.take j)).size ≤ n)
+    (hhi : n < (appendAll crcCodec ByteArray.empty (ds.take (j+1))).size) :
+    scan crcCodec true fid ((appendAll crcCodec ByteArray.empty ds).extract 0 n)
+      = { recs := (ds.take j).zip (posAll crcCodec fid ByteArray.empty (ds.take j)),
+          validEnd := (appendAll crcCodec ByteArray.empty (ds.take j)).size, ok := true } :=
+  scan_truncate_at crcCodec fid ds hpos j n hj hfit hhi
 
 /-- non-vacuity: a concrete flip that the theorem covers -/
 example : dec (flipBit (enc 0 ⟨#[1, 2, 3]⟩) 8 7 ++ ⟨#[9]⟩) = .badCrc :=
@@ -107,7 +126,7 @@ private def exDs : List ByteArray := [fill 100 1, fill 40 2]
 -- non-vacuity: two records (107 + 47 bytes), cut at 130 = inside record `j = 1`; the hypotheses hold …
 #guard (build (exDs.take 1)).size + padOf ((build (exDs.take 1)).size % BS) < 130
 #guard 130 < (build (exDs.take 2)).size
-#guard 130 % BS ≠ 0
+#guard 130 % BS ≠ 0    -- so `hnz` is required:
 #guard allZeroFrom ((build exDs).extract 0 130)
     (max ((build (exDs.take 1)).size + padOf ((build (exDs.take 1)).size % BS)) (130 / BS * BS)) == false
 -- … the strict reader returns the first record and fails, the tolerant reader returns it and ends cleanly
@@ -116,14 +135,45 @@ private def exDs : List ByteArray := [fill 100 1, fill 40 2]
 #guard (scan crcCodec true 1 ((build exDs).extract 0 130)).ok == true
 #guard (scan crcCodec true 1 ((build exDs).extract 0 130)).recs.length == 1
 -- the excluded cuts read as end of file for the strict reader too (no incomplete chunk is left):
--- at a record boundary, inside the padding in front of a record, and — KNOWN LIMITATION, the same in
--- the Go reader (`off >= fileSize`) — at the block boundary between two chunks of one record
+-- at a record boundary and inside the padding in front of a record
 #guard (scan crcCodec false 1 ((build exDs).extract 0 107)).ok == true
 #guard (build [fill 32755 1]).size == 32762
 #guard (scan crcCodec false 1 ((build [fill 32755 1, fill 10 2]).extract 0 32765)).ok == true
 #guard (build [fill 40000 3]).size > BS
-#guard (scan crcCodec false 1 ((build [fill 40000 3]).extract 0 BS)).ok == true
+-- a cut at the block boundary between two chunks of ONE record leaves no incomplete chunk either, but the record is
+-- unfinished: the strict reader reports it (`DataReader.endOfLog`; before that repair it read as a clean end of file),
+-- the tolerant reader ends the log in front of the record
+#guard (scan crcCodec false 1 ((build [fill 40000 3]).extract 0 BS)).ok == false
+#guard (scan crcCodec true 1 ((build [fill 40000 3]).extract 0 BS)).ok == true
+#guard (scan crcCodec true 1 ((build [fill 40000 3]).extract 0 BS)).recs.length == 0
 #guard (scan crcCodec false 1 ((build [fill 40000 3]).extract 0 (BS + 1))).ok == false
 #guard (scan crcCodec false 1 ((build [fill 40000 3]).extract 0 (BS - 1))).ok == false
+
+/-- non-vacuity of the block-boundary case of `C12_torn_tail_only_active` (and of
+    `C12_torn_tail_active`): ONE record of 40000 bytes (a First chunk filling block 0 and a Last
+    chunk), cut at `BS` — exactly between its two chunks.  The strict reader reports no record and
+    an ERROR, the tolerant reader no record and a clean end of file. -/
+example :
+    scan crcCodec false 1 ((build [fill 40000 3]).extract 0 BS) = { recs := [], validEnd := 0, ok := false } ∧
+    scan crcCodec true 1 ((build [fill 40000 3]).extract 0 BS) = { recs := [], validEnd := 0, ok := true } := by
+  have hsz : (fill 40000 3).size = 40000 := by simp [fill, ByteArray.size]
+  have hpos : ∀ d ∈ [fill 40000 3], 0 < d.size := by
+    intro d hd; simp only [List.mem_cons, List.not_mem_nil, or_false] at hd; subst hd; omega
+  have h0 : appendAll crcCodec ByteArray.empty ([fill 40000 3].take 0) = ByteArray.empty := by
+    simp [appendAll]
+  have h1 : appendAll crcCodec ByteArray.empty ([fill 40000 3].take (0+1))
+      = appendRec crcCodec ByteArray.empty (fill 40000 3) := by simp [appendAll]
+  have hgt := size_appendRec_gt crcCodec ByteArray.empty (fill 40000 3) (by omega)
+  have he : ByteArray.empty.size = 0 := rfl
+  have hBS : BS = 32768 := rfl
+  have hp : padOf (0 % BS) = 0 := by decide
+  have hhi : BS < (appendAll crcCodec ByteArray.empty ([fill 40000 3].take (0+1))).size := by
+    rw [h1]; omega
+  have hs := C12_torn_tail_only_active 1 [fill 40000 3] hpos 0 BS (by simp)
+    (by rw [h0, he, hp, hBS]; omega) hhi (fun h => absurd (Nat.mod_self BS) h)
+  have ht := C12_torn_tail_active 1 [fill 40000 3] hpos 0 BS (by simp)
+    (by rw [h0, he]; omega) hhi
+  rw [h0] at hs ht
+  exact ⟨hs, ht⟩
 
 end XixiKV.C12
